@@ -71,14 +71,14 @@ MapKey(s) == [mesh |-> CurMesh(s), size |-> SysSize(s)]
 (* and replacements stay excluded after a load: a mesh of the history read back from disk has the geometry Save() wrote,       *)
 (* the in-memory reading of the handles is not what the property prefers (DESIGN 0.6).                                          *)
 AnyLoaded == \E s \in Sims : loaded[s]
-AfterLoadActs == {"SetIter", "GetResults"} \cup
+AfterLoadActs == {"SetIter", "GetResults", "ResultAt"} \cup
                  (IF Cardinality(Sims) = 1 THEN {"SetParam", "SetRho", "SetDamping", "SetBc", "AddDirichlet", "AddLagrange", "SetAlgo", "GetKCMF", "Solve", "SaveIter"} ELSE {})
 A(name, args) == /\ name \in Acts
                  /\ AnyLoaded => name \in AfterLoadActs
                  /\ act' = [name |-> name, args |-> args]
                  /\ (name # "SaveLoad") => UNCHANGED loaded
 AllActs == {"SetParam", "SetRho", "SetDamping", "Translate", "Rotate", "Symmetry", "SetCoord", "SetMesh", "SetBc", "AddDirichlet",
-            "AddLagrange", "SetAlgo", "GetKCMF", "Solve", "SaveIter", "SetIter", "GetResults", "SetFolder", "SaveLoad"}
+            "AddLagrange", "SetAlgo", "GetKCMF", "Solve", "SaveIter", "SetIter", "GetResults", "ResultAt", "SetFolder", "SaveLoad"}
 
 ---------------------------------------------------------------------------
 Init ==
@@ -231,7 +231,7 @@ SaveIter(s) ==
     /\ UNCHANGED <<par, geomv, geo, obs, meshList, cur, rho, damp, nlag, bcv, dyn, need, asm, maps, gcache, live, nsolve, folder>>
 
 (* restore iteration i: fields come back, the mesh of that iteration becomes current (memo cleared, flag raised) *)
-SetIter(s, i) ==
+Restore(s, i, label) ==
     /\ StoreOn /\ i \in 1..Len(results[s])
     /\ LET r == results[s][i] IN
          /\ live' = [live EXCEPT ![s] = [u |-> r.u, va |-> IF dyn[s] /\ r.hasva THEN r.va ELSE 0]]
@@ -246,8 +246,13 @@ SetIter(s, i) ==
                  /\ bcv' = [bcv EXCEPT ![s] = 0]
                  /\ nlag' = [nlag EXCEPT ![s] = 0]
             ELSE UNCHANGED <<cur, maps, gcache, need, bcv, nlag>>
-    /\ A("SetIter", <<s, i>>)
+    /\ A(label, <<s, i>>)
     /\ UNCHANGED <<par, geomv, geo, obs, meshList, rho, damp, dyn, asm, nsolve, results, folder>>
+SetIter(s, i) == Restore(s, i, "SetIter")
+(* a NAMED result asked for iteration i - Result(name, iter=i): the documented reading is "restore iteration i, then read", the  *)
+(* simulation is left at iteration i.  The value is the one a read after an explicit SetIter gives, whatever the state the       *)
+(* simulation was in (same fields by coincidence, another mesh with as many nodes ...).                                          *)
+ResultAt(s, i) == Restore(s, i, "ResultAt")
 
 GetResults(s, i) ==
     /\ StoreOn /\ i \in 1..Len(results[s])
@@ -278,7 +283,7 @@ Next ==
     \/ \E m \in Meshes, k \in {"Translate", "Rotate", "Symmetry"} : Move(m, k)
     \/ \E m \in Meshes : SetCoord(m)
     \/ \E s \in Sims, m \in Meshes : SetMesh(s, m)
-    \/ \E s \in Sims, i \in 1..MaxIter : SetIter(s, i) \/ GetResults(s, i)
+    \/ \E s \in Sims, i \in 1..MaxIter : SetIter(s, i) \/ GetResults(s, i) \/ ResultAt(s, i)
     \/ \E s \in Sims, f \in Folders : SetFolder(s, f) \/ SaveLoad(s, f)
 
 Spec == Init /\ [][Next]_vars
@@ -303,7 +308,7 @@ Observing == \A s \in Sims : s \in obs[CurMesh(s)]
 (* C15 *)
 AppendOnly == [][\A s \in Sims : \A i \in 1..Len(results[s]) : Len(results'[s]) >= i /\ results'[s][i] = results[s][i]]_vars
 PureRead   == [][\A s \in Sims, i \in 1..MaxIter : (act'.name = "GetResults") => view' = view]_vars
-Restores   == [][\A s \in Sims : (act'.name = "SetIter" /\ act'.args[1] = s) =>
+Restores   == [][\A s \in Sims : (act'.name \in {"SetIter", "ResultAt"} /\ act'.args[1] = s) =>
                     LET r == results[s][act'.args[2]] IN
                       /\ live'[s].u = r.u
                       /\ cur'[s] = r.mi
